@@ -100,6 +100,11 @@ struct WorkerSummary {
     sim_ns: u128,
     known: BTreeMap<String, (u64, String)>,
     combined_hash: u64,
+    /// wall time of the slowest run of the lane (milliseconds) and its index: margin to the watchdog
+    #[serde(default)]
+    slowest_ms: u64,
+    #[serde(default)]
+    slowest_run: u64,
 }
 
 #[derive(Serialize, Deserialize)]
@@ -157,7 +162,14 @@ fn worker_lane<W: World>(a: &WorkerArgs) -> i32 {
             last_mark = Instant::now();
             first = false;
         }
-        match run_case::<W>(&case, &a.prop, &a.mode, a.tier, false, &open) {
+        let t_run = Instant::now();
+        let outcome = run_case::<W>(&case, &a.prop, &a.mode, a.tier, false, &open);
+        let ms = t_run.elapsed().as_millis() as u64;
+        if ms >= sum.slowest_ms {
+            sum.slowest_ms = ms;
+            sum.slowest_run = i;
+        }
+        match outcome {
             Err(h) => {
                 let _ = writeln!(out, "H {i} {}", h.replace('\n', " "));
                 let _ = out.flush();
@@ -237,6 +249,12 @@ pub struct BatchResult {
     /// lanes that were stopped early because their children kept dying (each death is recorded as a failure)
     pub lanes_stopped: Vec<String>,
     pub wall_s: f64,
+    pub slowest_ms: u64,
+    pub slowest_run: u64,
+    /// runs completed by children that died later (their failures were received line by line, their summary was not)
+    pub runs_unsummarised: u64,
+    /// deaths that did not recur when the lane was re-run run by run (not failures: a failure must replay)
+    pub transient_deaths: Vec<String>,
 }
 
 struct Slot {
@@ -346,6 +364,7 @@ pub fn run_batch(b: &Batch, prop: &str, tier: Tier, seed: u64, hashes: bool) -> 
             let mut next = k as u64;
             let mut single_step = false;
             let mut deaths_here = 0;
+            let mut pending_death: Option<String> = None;
             while next < runs {
                 let a = WorkerArgs {
                     prop: prop.clone(),
@@ -412,6 +431,10 @@ pub fn run_batch(b: &Batch, prop: &str, tier: Tier, seed: u64, hashes: bool) -> 
                             if let Ok(s) = serde_json::from_str::<WorkerSummary>(rest) {
                                 let mut r = result.lock().unwrap();
                                 r.runs += s.runs;
+                                if s.slowest_ms >= r.slowest_ms {
+                                    r.slowest_ms = s.slowest_ms;
+                                    r.slowest_run = s.slowest_run;
+                                }
                                 r.evals += s.evals;
                                 r.sim_ns += s.sim_ns;
                                 for (k, v) in s.stats {
@@ -445,6 +468,11 @@ pub fn run_batch(b: &Batch, prop: &str, tier: Tier, seed: u64, hashes: bool) -> 
                 };
                 if finished || harness {
                     // In single-step mode the worker runs to the end too.
+                    if finished && single_step {
+                        if let Some(w) = pending_death.take() {
+                            result.lock().unwrap().transient_deaths.push(w);
+                        }
+                    }
                     return;
                 }
                 // the child died without finishing
@@ -454,6 +482,12 @@ pub fn run_batch(b: &Batch, prop: &str, tier: Tier, seed: u64, hashes: bool) -> 
                 } else {
                     format!("child exited abnormally: {:?}", status)
                 };
+                // the runs the dead child completed before its last mark: executed, reported line by line, not summarised
+                if let Some(at) = last_begin {
+                    if at > a.start {
+                        result.lock().unwrap().runs_unsummarised += (at - a.start) / step;
+                    }
+                }
                 let Some(at) = last_begin else {
                     result
                         .lock()
@@ -480,10 +514,12 @@ pub fn run_batch(b: &Batch, prop: &str, tier: Tier, seed: u64, hashes: bool) -> 
                             .push(format!("{world}/{mode}: worker lane stopped after {deaths_here} child deaths (last at run {at})"));
                         return;
                     }
+                    pending_death = None;
                     next = at + step;
                     single_step = false;
                 } else {
                     // re-run from the last mark, marking every run
+                    pending_death = Some(format!("{world}/{mode}: a worker died at or after run {at} ({why}) and the death did not recur when the lane was re-run run by run"));
                     next = at;
                     single_step = true;
                 }
